@@ -225,6 +225,110 @@ fn rounding_miss(env: &Env, root: Node, boxes: &[Vec<(f32, f32)>], p: &[f32]) ->
     one::<fidget_core::vm::VmFunction>(env, root, boxes, p).or_else(|| one::<JitFunction>(env, root, boxes, p))
 }
 
+/// Interval-side witnesses for F11 and F6, from all-nodes interval evaluations
+/// of the ORIGINAL graph (interpreter and JIT) on the boxes traced so far.
+/// F11 (a NaN born from an infinite operand is dropped): some node below
+/// `root` is NaN at the point although its operands are not and one of them is
+/// infinite, AND its interval on a traced box is not the NaN interval.
+/// F6 (a one-pattern zero interval stands for the zero of the other sign): a
+/// rand / mix node below `root` has an operand whose point value is a zero and
+/// whose interval on a traced box is the other zero at both ends.  An atan2
+/// of two zeros (C03's stated exclusion) counts as an F6-class witness too.
+/// Without a witness the interval evaluator saw what the point evaluator saw
+/// and the listed finding cannot be the cause of a difference.
+fn interval_witness(
+    env: &Env,
+    root: Node,
+    boxes: &[Vec<(f32, f32)>],
+    vals: &std::collections::HashMap<Node, f32>,
+) -> (bool, bool) {
+    use fidget_core::context::{BinaryOpcode, Op, UnaryOpcode};
+    fn one<F: MathFunction>(
+        env: &Env,
+        root: Node,
+        boxes: &[Vec<(f32, f32)>],
+        vals: &std::collections::HashMap<Node, f32>,
+        out: &mut (bool, bool),
+    ) -> Option<()> {
+        let below: Vec<Node> = topo(&env.b.ctx, &[root])
+            .into_iter()
+            .filter(|n| !env.b.var_nodes.contains(n))
+            .collect();
+        if below.is_empty() {
+            return None;
+        }
+        let f = F::new(&env.b.ctx, &below).ok()?;
+        let vm = f.vars();
+        let mut slot_to_k: Vec<Option<usize>> = vec![None; vm.len()];
+        let mut var_k: std::collections::HashMap<Node, usize> = Default::default();
+        for (k, i) in env.order_spec.iter().enumerate() {
+            if let Some(s) = vm.get(&env.b.vars[*i]) {
+                slot_to_k[s] = Some(k);
+            }
+            var_k.insert(env.b.var_nodes[*i], k);
+        }
+        let index: std::collections::HashMap<Node, usize> =
+            below.iter().enumerate().map(|(j, n)| (*n, j)).collect();
+        let it = f.interval_tape(Default::default());
+        let mut ie = F::new_interval_eval();
+        for bx in boxes {
+            let iin: Vec<Interval> = slot_to_k
+                .iter()
+                .map(|k| k.map(|k| Interval::new(bx[k].0, bx[k].1)).unwrap_or(Interval::from(0.0)))
+                .collect();
+            let iv: Vec<Interval> = ie.eval(&it, &iin).ok()?.0.to_vec();
+            let of = |n: Node| -> Option<Interval> {
+                index
+                    .get(&n)
+                    .map(|j| iv[*j])
+                    .or_else(|| var_k.get(&n).map(|k| Interval::new(bx[*k].0, bx[*k].1)))
+            };
+            let other_zero = |c: Node| -> bool {
+                let p = vals[&c];
+                match of(c) {
+                    Some(i) => {
+                        p == 0.0
+                            && i.lower() == 0.0
+                            && i.lower().to_bits() == i.upper().to_bits()
+                            && i.lower().to_bits() != p.to_bits()
+                    }
+                    None => false,
+                }
+            };
+            for n in &below {
+                let op = *env.b.ctx.get_op(*n).unwrap();
+                let ch: Vec<Node> = op.iter_children().collect();
+                if vals[n].is_nan()
+                    && !ch.is_empty()
+                    && ch.iter().all(|c| !vals[c].is_nan())
+                    && ch.iter().any(|c| vals[c].is_infinite())
+                    && of(*n).map(|i| !i.has_nan()).unwrap_or(false)
+                {
+                    out.0 = true;
+                }
+                match op {
+                    Op::Unary(UnaryOpcode::Rand, a) if other_zero(a) => out.1 = true,
+                    Op::Binary(BinaryOpcode::Mix, l, r) if other_zero(l) || other_zero(r) => out.1 = true,
+                    _ => {}
+                }
+            }
+        }
+        Some(())
+    }
+    let mut out = (false, false);
+    one::<fidget_core::vm::VmFunction>(env, root, boxes, vals, &mut out);
+    one::<JitFunction>(env, root, boxes, vals, &mut out);
+    // atan2(0, 0) below the root: the stated exclusion of C03
+    for n in topo(&env.b.ctx, &[root]) {
+        if let Op::Binary(BinaryOpcode::Atan, l, r) = *env.b.ctx.get_op(n).unwrap() {
+            if vals[&l] == 0.0 && vals[&r] == 0.0 {
+                out.1 = true;
+            }
+        }
+    }
+    out
+}
+
 /// F18 (see C03) reaching a decision: true if, on one of the traced boxes, the
 /// JIT's interval evaluation of the original graph has a mul / div node below
 /// `root` whose four bound products are a mixture of NaN and non-NaN values --
@@ -480,15 +584,27 @@ where
                     if same(pv[k], cv[k]) {
                         continue;
                     }
+                    // the witnesses are computed on the original graph, which
+                    // is the function that was traced only in the first step
+                    // of a chain; later steps trace a child, whose intervals
+                    // can differ (e.g. a one-pattern zero out of and_choice)
+                    let (w11, w6) = if depth == 1 {
+                        interval_witness(env, root, &traced_boxes, &vals)
+                    } else {
+                        (true, true)
+                    };
+                    if depth == 1 {
+                        cx.ev.count("mismatches_attributed_with_interval_witness");
+                    }
                     let sig = if taint[&root] {
                         "F7-minmax-zero-tie-amplified"
-                    } else if ref_taint_ext(&env.b.ctx, &order, &vals, false, true)[&root] {
+                    } else if w6 && ref_taint_ext(&env.b.ctx, &order, &vals, false, true)[&root] {
                         // rand / mix of a zero (or atan2(0, 0)): the interval
                         // evaluator hashes the other zero's bit pattern
                         "F6-interval-hash-of-zero"
                     } else if kind >= 2 && gtaint[&root] {
                         "F12-grad-abs-negative-zero-amplified"
-                    } else if nan_from_inf(env.b, root, &vals) {
+                    } else if w11 && nan_from_inf(env.b, root, &vals) {
                         "F11-interval-ignores-nan-from-infinity"
                     } else {
                         "child-differs-from-parent"
@@ -579,6 +695,10 @@ where
                         let order = topo(&env.b.ctx, env.roots);
                         let taint = ref_taint_ext(&env.b.ctx, &order, &vals, false, true);
                         cx.ev.count("child_interval_miss_candidates");
+                        // (the child's own interval evaluation is at issue
+                        // here, so the attribution cannot use witnesses taken
+                        // from the original graph)
+                        let w11 = true;
                         if taint[&env.roots[k]] {
                             cx.ev.count("child_interval_miss_tainted_skipped");
                             continue;
@@ -588,7 +708,8 @@ where
                         // so a decided choice dropped the branch that the point
                         // evaluation takes): the child then differs in value
                         // (tolerated above) and its interval cannot enclose
-                        if nan_from_inf(env.b, env.roots[k], &vals)
+                        if w11
+                            && nan_from_inf(env.b, env.roots[k], &vals)
                             && cx.known("F11-interval-ignores-nan-from-infinity")
                         {
                             cx.ev.count("child_interval_miss_f11_skipped");
